@@ -402,9 +402,24 @@ fn judge(run: &Run, env: &Env, c: &Case) -> CaseResult {
         // a bare manifest store has no asset that could become a parent: Create intents only
         spec.intent %= 3;
     }
+    // keep the triggers of already recognised defects rare, so that they do not mask the rest of the oracle
+    // (deterministic in the case): generator icon + sha384/512; Update manifests that are not embedded or
+    // embedded into containers with size fields
+    if spec.resources == 2 && spec.hash_alg >= 2 && spec.seed % 8 != 0 {
+        spec.resources = 1;
+    }
+    let mut embed_in = c.embed % 3;
+    if spec.intent == 5 && !spec.claim_v1 {
+        if spec.seed % 4 != 0 {
+            embed_in = 0;
+        }
+        if embed_in == 0 && matches!(*alabel, "webp" | "wav" | "avi" | "tiff" | "mp3" | "flac") && spec.seed % 3 != 0 {
+            spec.intent = 3;
+        }
+    }
     let gd = defgen::expand_with(&spec, &opts());
     // a bare manifest store is neither embedded in anything nor can it carry an XMP reference
-    let embed = if *alabel == "c2pa" { 0 } else { c.embed % 3 };
+    let embed = if *alabel == "c2pa" { 0 } else { embed_in };
     if std::env::var("VERIF_DUMP").is_ok() {
         let mut t = gd.json.to_string();
         t.truncate(6000);
@@ -471,6 +486,15 @@ fn judge(run: &Run, env: &Env, c: &Case) -> CaseResult {
                 run.count(&format!("remote_ref_unsupported_{alabel}"));
                 return Ok(());
             }
+            if format!("{e}").contains("Must have ParentOf ingredient") && gd.expect.ingredients.iter().any(|i| i.relationship == "parentOf") {
+                return Err(Fail::new(
+                    "C03:parent-ingredient-shadowed-by-same-id",
+                    format!(
+                        "Edit intent with a supplied parentOf ingredient {:?}: sign failed: {e}",
+                        gd.expect.ingredients.iter().map(|i| (i.title.clone(), i.relationship.clone())).collect::<Vec<_>>()
+                    ),
+                ));
+            }
             return Err(Fail::new(
                 format!("C03:sign-failed:{}", err_variant(&e)),
                 format!("sign({alabel}, {alg}, embed={embed}) failed: {e}"),
@@ -531,6 +555,15 @@ fn judge(run: &Run, env: &Env, c: &Case) -> CaseResult {
             is_update_detached
                 && (d.contains("assertion.dataHash.mismatch") || d.contains("assertion.bmffHash.mismatch") || d.contains("assertion.boxesHash.mismatch"))
         };
+        // embedded Update manifests: containers whose bytes outside the manifest box depend on its size
+        let is_update_embedded = gd.intent == IntentKind::Update && embed == 0;
+        let by_update_embedded = |d: &String| is_update_embedded && d.contains("assertion.dataHash.mismatch");
+        if got_state == "Invalid" && !detail.is_empty() && detail.iter().any(|d| by_update_embedded(d)) && detail.iter().all(|d| by_icon(d) || by_update_embedded(d)) {
+            return Err(Fail::new(
+                "C03:update-manifest-embedded-invalid",
+                format!("Update intent, manifest embedded into {alabel}: sign Ok, read-back Invalid; failures {detail:?}"),
+            ));
+        }
         if got_state == "Invalid" && !detail.is_empty() && detail.iter().all(|d| by_icon(d) || by_update(d)) {
             if detail.iter().any(|d| by_update(d)) {
                 return Err(Fail::new(
@@ -588,6 +621,176 @@ fn judge(run: &Run, env: &Env, c: &Case) -> CaseResult {
         || alg != "es256"
         || gd.expect.hash_alg.as_deref().map(|h| h != "sha256").unwrap_or(false);
     if nontrivial {
+        run.nontrivial(c);
+    }
+    Ok(())
+}
+
+// ---- BMFF Merkle axis (core.merkle_tree_chunk_size_in_kb) on synthesised MP4-family assets --------------
+
+#[derive(Clone, Debug, Serialize, Deserialize, PartialEq, Eq, Hash)]
+struct MCase {
+    /// index into BMFF_KINDS
+    kind: u8,
+    /// seed of `vh::assets::synth(kind, SplitMix64(aseed), 1500)`
+    aseed: u64,
+    merkle: bool,
+    alg: u8,
+    spec: DefSpec,
+}
+
+const BMFF_KINDS: [&str; 5] = ["mp4", "mov", "m4a", "heic", "avif"];
+
+fn merkle_spec(s: &DefSpec) -> DefSpec {
+    let mut s = s.clone();
+    if s.intent == 5 {
+        s.intent = 3;
+    }
+    s.resources = s.resources.min(1); // no generator icon: keeps the icon/hash_alg finding out of this axis
+    if s.size_class == 3 {
+        s.size_class = 2;
+    }
+    defgen::normalise(&mut s, &opts());
+    s
+}
+
+fn judge_merkle(run: &Run, env: &Env, c: &MCase) -> CaseResult {
+    let kind = BMFF_KINDS[c.kind as usize % BMFF_KINDS.len()];
+    let asset = vh::assets::synth(kind, &mut SplitMix64::new(c.aseed), 1500);
+    let mime = asset.format;
+    let alg = sdk::ALGS[c.alg as usize % sdk::ALGS.len()];
+    let gd = defgen::expand_with(&merkle_spec(&c.spec), &opts());
+    let n_mdat = asset.desc.split("order ").nth(1).map(|o| o.split(|ch: char| ch == ',' || ch == ';' || ch == ' ').filter(|t| *t == "mdat").count()).unwrap_or(1);
+    let size0 = asset.desc.contains("mdat-size0");
+    run.count(&format!("merkle_{}_{kind}", if c.merkle { "on" } else { "off" }));
+    run.count(&format!("bmff_mdat_boxes_{n_mdat}{}", if size0 { "_size0" } else { "" }));
+
+    let settings_for = |merkle: bool| {
+        let mut s = sdk::base_settings(true);
+        if merkle {
+            sdk::merge(&mut s, &json!({ "core": { "merkle_tree_chunk_size_in_kb": 1 } }));
+        }
+        s
+    };
+    // sign + read `reads` times; Err(sign error) or (readers, failure codes of the invalid reads)
+    let round = |merkle: bool, reads: usize| -> Result<(Vec<Reader>, usize, Vec<String>), String> {
+        let st = settings_for(merkle);
+        let mut b = gd.builder(sdk::context_with(&st), &gd.json).map_err(|e| format!("definition: {e}"))?;
+        let signer = sdk::signer(alg);
+        let mut source = Cursor::new(asset.bytes.clone());
+        let mut dest = Cursor::new(Vec::new());
+        match vh::catch(|| b.sign(signer.as_ref(), mime, &mut source, &mut dest)) {
+            Err(p) => return Err(format!("panic {p}")),
+            Ok(Err(e)) => return Err(format!("{}: {e}", err_variant(&e))),
+            Ok(Ok(_)) => {}
+        }
+        let out = dest.into_inner();
+        let mut readers = vec![];
+        let mut invalid = 0;
+        let mut codes = vec![];
+        for _ in 0..reads {
+            match vh::catch(|| Reader::from_context(sdk::context_with(&st)).with_stream(mime, Cursor::new(out.clone()))) {
+                Ok(Ok(r)) => {
+                    if !sdk::is_valid_or_trusted(&r) || !sdk::failure_codes(&r).is_empty() {
+                        invalid += 1;
+                        codes.extend(sdk::failure_codes(&r));
+                    }
+                    readers.push(r);
+                }
+                Ok(Err(e)) => {
+                    invalid += 1;
+                    codes.push(format!("read-error:{}", err_variant(&e)));
+                }
+                Err(p) => {
+                    invalid += 1;
+                    codes.push(format!("read-panic:{}", vh::core::panic_site(&p)));
+                }
+            }
+        }
+        codes.sort();
+        codes.dedup();
+        Ok((readers, invalid, codes))
+    };
+
+    // The two-mdat read-back instability is a property of the *validator* (iteration order of a HashMap), so
+    // such outputs are read 8 times; any Invalid read among them is reported under one signature.
+    let reads = if c.merkle && n_mdat >= 2 { 8 } else { 2 };
+    let res = round(c.merkle, reads);
+    let control = |what: &str| -> Result<(), Fail> {
+        // is the synthesised asset acceptable at all?  (same definition, Merkle off)
+        match round(false, 1) {
+            Err(e) => {
+                run.count("synth_asset_rejected");
+                let _ = (what, e);
+                Ok(())
+            }
+            Ok((_, inv, _)) if inv > 0 => {
+                run.count("synth_asset_invalid_without_merkle");
+                Ok(())
+            }
+            Ok(_) => Err(Fail::new("", "")),
+        }
+    };
+    let (readers, invalid, codes) = match res {
+        Err(e) => {
+            if !c.merkle {
+                run.count("synth_asset_rejected");
+                return Ok(());
+            }
+            // claim v1 writes c2pa.hash.bmff.v2, which has no Merkle support: documented capability error
+            if gd.expect.claim_version == 1 && e.starts_with("VersionCompatibility") {
+                run.count("merkle_unsupported_claim_v1");
+                return Ok(());
+            }
+            return match control("sign") {
+                Ok(()) => Ok(()),
+                Err(_) => Err(Fail::new(
+                    format!("C03:bmff-merkle-sign-failed:{}", e.split(':').next().unwrap_or("")),
+                    format!("{kind} ({}): signs without Merkle hashing, with core.merkle_tree_chunk_size_in_kb=1 sign fails: {e}", asset.desc),
+                )),
+            };
+        }
+        Ok(x) => x,
+    };
+    if invalid > 0 {
+        if !c.merkle {
+            // the toolkit's synthesiser is meant to be sound; an invalid plain round trip is looked at as a violation
+            return Err(Fail::new(
+                format!("C03:bmff-synth-state-invalid:{}", codes.first().cloned().unwrap_or_default()),
+                format!("{kind} synth seed {} ({}): signed without Merkle, {invalid}/{reads} reads not valid: {codes:?}", c.aseed, asset.desc),
+            ));
+        }
+        if control("read").is_ok() {
+            return Ok(());
+        }
+        let only_bmff = codes.iter().all(|c| c == "assertion.bmffHash.mismatch");
+        let sig = if only_bmff && size0 && invalid == reads && n_mdat == 1 {
+            "C03:bmff-merkle-mdat-size0-signed-output-invalid".to_string()
+        } else if only_bmff && n_mdat >= 2 {
+            "C03:bmff-merkle-two-mdat-readback-unstable".to_string()
+        } else {
+            format!("C03:bmff-merkle-signed-output-invalid:{}", codes.first().cloned().unwrap_or_default())
+        };
+        return Err(Fail::new(
+            sig,
+            format!(
+                "{kind} synth seed {} ({}), core.merkle_tree_chunk_size_in_kb=1: sign Ok, {invalid} of {reads} read-backs not valid ({codes:?}); the same asset and definition without the Merkle setting is valid",
+                c.aseed, asset.desc
+            ),
+        ));
+    }
+    let want_state = if *env.anchored.get(alg).unwrap_or(&false) { "Trusted" } else { "Valid" };
+    for r in &readers {
+        let st = sdk::state_name(r.validation_state());
+        if st != want_state && !(want_state == "Valid" && st == "Trusted") {
+            return Err(Fail::new(format!("C03:state-{}:", st.to_lowercase()), format!("{kind} synth: state {st}, expected {want_state}")));
+        }
+    }
+    let Some(m) = readers.first().and_then(|r| r.active_manifest()) else {
+        return Err(Fail::new("C03:no-active-manifest", "read-back has no active manifest"));
+    };
+    compare(run, &gd, m, mime)?;
+    if c.merkle {
         run.nontrivial(c);
     }
     Ok(())
@@ -704,6 +907,41 @@ fn main() {
             }
         }
         run.drive_enum_par("full_grid", grid, threads, |c| judge(&run, &env, c));
+    }
+
+    // ---- (b2) BMFF Merkle axis: kinds × Merkle on/off × synthesised layouts, random definitions ------------
+    {
+        let per = run.scale(12u64, 120u64);
+        let mut sm = SplitMix64::new(run.seed ^ 0x3E441E);
+        let mut mcases = vec![];
+        for kind in 0..BMFF_KINDS.len() as u8 {
+            for i in 0..per {
+                // fixed layout seeds first (23: single mdat with size 0; 2, 11: two mdat boxes), then seeded ones
+                let aseed = match i {
+                    0 => 23,
+                    1 => 2,
+                    2 => 11,
+                    _ => sm.below(100_000),
+                };
+                for merkle in [true, false] {
+                    let mut spec = DefSpec {
+                        seed: sm.next_u64(),
+                        title: sm.usize(7) as u8,
+                        cgi: sm.usize(6) as u8,
+                        claim_v1: sm.chance(1, 6),
+                        intent: sm.usize(5) as u8,
+                        n_assertions: sm.usize(4) as u8,
+                        n_ingredients: sm.usize(2) as u8,
+                        size_class: sm.usize(3) as u8,
+                        hash_alg: sm.usize(4) as u8,
+                        ..DefSpec::default()
+                    };
+                    defgen::normalise(&mut spec, &opts());
+                    mcases.push(MCase { kind, aseed, merkle, alg: sm.usize(7) as u8, spec });
+                }
+            }
+        }
+        run.drive_enum_par("bmff_merkle", mcases, threads, |c| judge_merkle(&run, &env, c));
     }
 
     // ---- (c) random cases with shrinking ----------------------------------------------------------------
